@@ -280,7 +280,7 @@ func (s *scen18) emit(w *vh.Writer) {
 		fmt.Fprintf(&key, "%s,%d,%d,%d,%v,%d;", st.op, st.st, st.err, st.ms, st.comp, len(st.reacts))
 	}
 	w.Put(vh.Case{
-		Coq:        fmt.Sprintf("mkCase %s %s %s", vh.B(s.started), vh.List(s.events), vh.List(s.obs)),
+		Coq:        fmt.Sprintf("CUnit %s %s %s", vh.B(s.started), vh.List(s.events), vh.List(s.obs)),
 		Nontrivial: s.spawned >= 1 && s.notes >= 2,
 		Key:        key.String(),
 		Kind:       s.kind,
